@@ -81,6 +81,7 @@ class LifecycleMonitor(Monitor):
         self.log = {}  # vid -> [status names]
         self.completed_at = {}  # vid -> matched size when first seen complete after having been sent
         self.inflight = {}  # vid -> number of packages containing it that are undelivered/unanswered
+        self.inflight_mod = {}  # vid -> kinds of cancel/update/replace packages handed over and not answered yet
         self.orders = {}
         self.pending_req = None
         self.removed_exempt = set()
@@ -103,6 +104,10 @@ class LifecycleMonitor(Monitor):
             self.res.probes["c03.transition.%s->%s" % (p, n)] += 1
         if n == "EXECUTION_COMPLETE" and vid not in self.completed_at and "PENDING" in self.log[vid]:
             self.completed_at[vid] = order.size_matched
+        if p == "UPDATING" and n != "UPDATING" and getattr(getattr(order, "EXCHANGE", None), "name", "") == "BETDAQ" and "UPDATE" in self.inflight_mod.get(vid, []):
+            # Betdaq by design: an update is answered by the polling (new sequence number), not by the call's reply
+            self.inflight_mod[vid].remove("UPDATE")
+            self.res.probes["c03.betdaq.update_resolved_by_polling_before_reply"] += 1
 
     def _matched_constant(self, where):
         for vid, m0 in self.completed_at.items():
@@ -157,9 +162,15 @@ class LifecycleMonitor(Monitor):
                 self.violate(self.P, "C03.guard", "%s-accepted-on-%s" % (kind.lower(), st0), order=order._vid, bet_id=order.bet_id, type=order.order_type.ORDER_TYPE.name)
         if res is True and nfl > 0 and not self.live:
             self.violate(self.P, "C03.one-in-flight", "%s-accepted-while-operation-outstanding" % kind.lower(), order=order._vid, outstanding=nfl)
+        if res is True and self.live and self.inflight_mod.get(order._vid):
+            # live: a cancel/update/replace of this order has been handed to the execution layer and has not been answered
+            # (placements are different: the order stream may acknowledge an async placement before the response)
+            self.violate(self.P, "C03.one-in-flight", "%s-accepted-while-%s-outstanding" % (kind.lower(), "/".join(sorted(self.inflight_mod[order._vid])).lower()), order=order._vid, status_before=st0, status_log=[x.name for x in order.status_log][-6:])
 
     def on_package(self, pkg):
         for o in pkg._orders:
+            if pkg.package_type.name != "PLACE":
+                self.inflight_mod.setdefault(o._vid, []).append(pkg.package_type.name)
             n = self.inflight.get(o._vid, 0) + 1
             self.inflight[o._vid] = n
             if n > 1 and not self.live:
@@ -172,6 +183,8 @@ class LifecycleMonitor(Monitor):
             return  # the package was re-submitted (retry): it is still outstanding
         for o in pkg._orders:
             self.inflight[o._vid] = max(0, self.inflight.get(o._vid, 0) - 1)
+            if pkg.package_type.name != "PLACE" and pkg.package_type.name in self.inflight_mod.get(o._vid, []):
+                self.inflight_mod[o._vid].remove(pkg.package_type.name)
         # a response applied after the order's state was changed by a market event since the request
         for o in pkg._orders:
             lg = self.log.get(o._vid, [])
@@ -198,6 +211,8 @@ class AccountingMonitor(Monitor):
         self.trades = {}
         self.pre = None
         self.placed_trades = {}  # (strategy, lookup) -> ordered set of trade ids charged through an executed placement/adoption
+        self.own_last_place = {}  # (strategy, lookup) -> simulated ms of the latest accepted, executed placement
+        self.own_last_done = {}  # (strategy, lookup) -> simulated ms at which the last live order of a placed trade completed (never later than the trade's completion)
         self.in_exec = 0
 
     def on_exec_before(self, pkg):
@@ -206,6 +221,13 @@ class AccountingMonitor(Monitor):
     def on_order_created(self, order):
         # replacement orders are created by the execution layer, everything else by the strategy
         order._by_execution = self.in_exec > 0
+
+    def on_status(self, order, prev, new):
+        if order.complete and order.trade is not None and order.trade.status.name != "COMPLETE" and order.trade.orders and all(o.complete for o in order.trade.orders):
+            key = (order.trade.strategy.name, order.lookup)
+            if order.trade.id in self.placed_trades.get(key, ()):
+                # candidate only: a replacement created in the same handler keeps the trade live (confirmed when used)
+                self.own_last_done.setdefault(key, {})[order.trade.id] = (order.trade, self.run.now_ms)
 
     def _ctx(self, strategy, lookup):
         return strategy._invested.get(lookup)
@@ -239,6 +261,9 @@ class AccountingMonitor(Monitor):
         self.placed_trades.setdefault(key, [])
         if order.trade.id not in self.placed_trades[key]:
             self.placed_trades[key].append(order.trade.id)
+        # own journal of accepted placements per runner (independent of the runner context's time stamp)
+        own_prev = self.own_last_place.get(key)
+        self.own_last_place[key] = pre["now"]
         if pre["force"]:
             return
         from .matching import to_ms
@@ -262,6 +287,21 @@ class AccountingMonitor(Monitor):
                     pr["c10.zero_elapsed_placement"] += 1
                 if el < order.trade.place_reset_seconds - 1e-9:
                     self.violate(self.P, "C10.limits", "place_reset_seconds-not-respected:elapsed=%s" % ("0" if el == 0 else ">0"), elapsed=el, place_reset_seconds=order.trade.place_reset_seconds)
+            if own_prev is not None and order.trade.place_reset_seconds:
+                el = (pre["now"] - own_prev) / 1000.0
+                if len(self.placed_trades[key]) >= 2:
+                    pr["c10.place_cooldown_checked_against_own_journal"] += 1
+                if el < order.trade.place_reset_seconds - 1e-9:
+                    self.violate(self.P, "C10.limits", "place_reset_seconds-not-respected:since-latest-placement-on-runner", elapsed=el, place_reset_seconds=order.trade.place_reset_seconds, context_elapsed=None if pre["last_placed"] is None else (pre["now"] - to_ms(pre["last_placed"])) / 1000.0)
+            done = [t for (tr, t) in self.own_last_done.get(key, {}).values() if tr.status.name == "COMPLETE" and tr is not order.trade and all(o.complete for o in tr.orders)]
+            own_done = max(done) if done else None
+            if own_done is not None and order.trade.reset_seconds and pre["last_reset"] is not None:
+                # flumine's own stamp may legitimately be later than ours (a trade completes at or after its last order), never much earlier
+                el_own = (pre["now"] - own_done) / 1000.0
+                el_ctx = (pre["now"] - to_ms(pre["last_reset"])) / 1000.0
+                pr["c10.reset_cooldown_checked_against_own_journal"] += 1
+                if el_own < order.trade.reset_seconds - 1e-9 and el_ctx >= order.trade.reset_seconds - 1e-9:
+                    self.violate(self.P, "C10.limits", "reset_seconds-not-respected:since-latest-completed-trade-on-runner", elapsed=el_own, context_elapsed=el_ctx, reset_seconds=order.trade.reset_seconds)
             if pre["last_reset"] is not None and order.trade.reset_seconds:
                 el = (pre["now"] - to_ms(pre["last_reset"])) / 1000.0
                 if el < order.trade.reset_seconds - 1e-9:
@@ -427,8 +467,16 @@ class BlotterMonitor(Monitor):
             self.violate(self.P, "C15.views", "orders", blotter=ids(list(b)), shadow=ids(sh), where=where)
             return
         strategies, clients, sels, trades = [], [], [], []
+        owner = {id(a): a._client() for a in self.run.agents if hasattr(a, "_client")}
+        if len(self.run.clients) > 1:
+            self.res.probes["c15.audit_with_2plus_clients"] += 1
         for o in sh:
             s = o.trade.strategy
+            # every order of a scripted strategy is placed through that strategy's client; replacements and adopted
+            # orders stay with it (the by-client views are checked against this, not against the order's own attribute)
+            want_client = owner.get(id(s))
+            if want_client is not None and o.client is not want_client and not getattr(o, "_foreign_client", False):
+                self.violate(self.P, "C15.views", "order-filed-under-another-client", order=o._vid, client=getattr(o.client, "username", None), placed_through=getattr(want_client, "username", None), replacement=bool(getattr(o, "_replacement_of", None)), where=where)
             if s not in strategies:
                 strategies.append(s)
             if o.client not in clients:
